@@ -6,8 +6,8 @@ From FlacWriters Require Import Meta Params Finalize Writers.
 From FlacWriters Require Import Params_proofs.
 From FlacReaders Require Readers Spec Ser RNum Seek.
 From FlacWriters Require Import Lists_proofs Writers_proofs.
-From FlacWriters Require Import Bytes_proofs.
-From FlacE2E Require Import Bridge E2E SampleE2E Success ChannelE2E ByteE2E ByteSuccess ChannelSuccess ReadBridge ReadersE2E InterruptedE2E SeekE2E SeekReadE2E.
+From FlacWriters Require Import Bytes_proofs Cross_proofs.
+From FlacE2E Require Import Bridge E2E SampleE2E Success ChannelE2E ByteE2E ByteSuccess ChannelSuccess ReadBridge ReadersE2E InterruptedE2E SeekE2E SeekReadE2E Transfer.
 Import ListNotations.
 Open Scope N_scope.
 
@@ -451,6 +451,52 @@ Theorem C06_written_file_seeks_bytes_channels : forall o L md5, (forall l, lengt
         nth_error (FlacReaders.Spec.chan_pcm F c) i = nth_error written (i * N.to_nat ch + c)).
 Proof. exact written_file_seeks_bytes_channels. Qed.
 
+(* C09 for the other two front-ends, by transfer: a byte writer run (either byte order) and a channel writer run ARE
+   sample writer runs over the samples they spell (C08_byte_run_is_sample_run / C08_channel_run_is_sample_run), and
+   the constructors succeed together (byte_new_sample_new / channel_new_sample_new) *)
+Theorem C09_byte_writer_seekpoints : forall o L md5, (forall l, length (md5 l) = 16%nat) ->
+  forall p rate bps en wo ch tb wb chunks iv,
+  options_wf wo -> o_seektable_interval wo = Some iv ->
+  byte_new p en [] wo rate bps ch tb = Ok wb ->
+  Forall byte_ok (concat chunks) ->
+  let samples := decoded en (N.to_nat (bytes_per_sample_of bps)) (concat chunks) in
+  forallb (FlacCodec.Wf.fits bps) samples = true ->
+  let W := N.of_nat (length samples) / ch in
+  1 <= W -> N.of_nat (length samples) < 2 ^ 36 ->
+  match tb with Some T => T = bytes_per_sample_of bps * (ch * W) | None => True end ->
+  exists f blocks audio,
+    byte_run (encB o L rate bps) md5 p wb chunks = Ok f /\
+    FlacCodec.Stream.read_metadata_min (f_stream f) = Some (conv_si (f_si f), audio) /\
+    concat (map FlacCodec.Stream.interleave_frame blocks) = firstn (N.to_nat ch * (length samples / N.to_nat ch)) samples /\
+    forall pts, first_seektable (f_blocks f) = Some pts ->
+      forall s b m, In (Defined s b m) pts ->
+        exists pre blk post h rest, blocks = pre ++ blk :: post /\ s = FlacCodec.Enc_proofs.blocks_samples pre /\ m = FlacCodec.Enc.block_len blk /\
+          FlacCodec.Dec.dec_frame (Some (conv_si (f_si f))) (fun _ => Ok tt) (skipn (N.to_nat b) audio) = Ok (h, blk, rest) /\
+          FlacCodec.Ast.h_number h = N.of_nat (length pre).
+Proof. exact byte_writer_seekpoints. Qed.
+Theorem C09_channel_writer_seekpoints : forall o L md5, (forall l, length (md5 l) = 16%nat) ->
+  forall p rate bps wo ch tc wc chunks iv,
+  options_wf wo -> o_seektable_interval wo = Some iv ->
+  channel_new p [] wo rate bps ch tc = Ok wc ->
+  Forall (chunk_ok (N.to_nat ch)) chunks ->
+  let samples := concat (multizip (cconcat (N.to_nat ch) chunks)) in
+  forallb (FlacCodec.Wf.fits bps) samples = true ->
+  let W := N.of_nat (length samples) / ch in
+  1 <= W -> N.of_nat (length samples) < 2 ^ 36 ->
+  match tc with Some T => T = W | None => True end ->
+  exists f blocks audio,
+    channel_run (encB o L rate bps) md5 p wc chunks = Ok f /\
+    FlacCodec.Stream.read_metadata_min (f_stream f) = Some (conv_si (f_si f), audio) /\
+    concat (map FlacCodec.Stream.interleave_frame blocks) = firstn (N.to_nat ch * (length samples / N.to_nat ch)) samples /\
+    forall pts, first_seektable (f_blocks f) = Some pts ->
+      forall s b m, In (Defined s b m) pts ->
+        exists pre blk post h rest, blocks = pre ++ blk :: post /\ s = FlacCodec.Enc_proofs.blocks_samples pre /\ m = FlacCodec.Enc.block_len blk /\
+          FlacCodec.Dec.dec_frame (Some (conv_si (f_si f))) (fun _ => Ok tt) (skipn (N.to_nat b) audio) = Ok (h, blk, rest) /\
+          FlacCodec.Ast.h_number h = N.of_nat (length pre).
+Proof. exact channel_writer_seekpoints. Qed.
+
+Print Assumptions C09_byte_writer_seekpoints.
+Print Assumptions C09_channel_writer_seekpoints.
 Print Assumptions C06_written_file_seeks_bytes_channels.
 Print Assumptions C06_written_file_seeks.
 Print Assumptions C09_end_to_end_seekpoints.
